@@ -373,6 +373,14 @@ def bytes_method(ex, b, name, args, kwargs):
         ex.assume(mk_bool(N.zlen(r) <= N.zlen(b)))
         ex.ghost['havocked'] = True
         return r
+    if name in ('lower', 'upper') and not args:
+        snap = N.snapshot(b)
+        lo, hi, d = (65, 90, 32) if name == 'lower' else (97, 122, -32)
+
+        def at(i, _s=snap):
+            t = N._z(_s.at(i))
+            return z3.If(z3.And(t >= lo, t <= hi), t + d, t)
+        return SBytes(snap.length, at, b.mutable)
     if name == 'split' and not args and not kwargs:
         # whitespace split of symbolic octets, exact but BOUNDED: the length must have a small concrete upper bound
         # (the path forks over the length and over "is this octet white space" for every position)
